@@ -11,6 +11,16 @@ NOTE = ("Trusted: Lean 4.33 kernel + axioms propext/Classical.choice/Quot.sound 
         "(real code vs compiled model on the same cases); CPython/stdlib semantics re-expressed in the model. ")
 
 CHECKS = {
+    "C05": dict(
+        text="Theorems C05_load_frame (for every splitter without header/footer: before = lines through the DDBEGIN line, after = lines from the DDEND line), C05_char_byte (char mode moves the last region byte, unchanged, in front of the suffix), C05_content_frame, C05_frame_minimize and C05_frame_pairs (every proposal and the final best of minimize / minimize-around / minimize-balanced keep before and after, for every test, clock and option setting). Tied to the code by loaders + all 7 strategies (+move) x 5 splitters on marker files with every terminator style; the monitor compares prefix/suffix (and the byte before DDEND in char mode) of every file presented to the test.",
+        note=NOTE + "Brace collapsing (re-load of the collapsed text), the two rewriting strategies and the experimental move: monitored on the real code, not proved.",
+        technique="Lean 4 proof (load spec + frame invariant through the strategy loops) + differential execution on marker files",
+        ref="§4 C05"),
+    "C13": dict(
+        text="Theorems C13_around_ends_after_quiet_pass / C13_balanced_ends_after_quiet_pass via pairsOuter_quiet: for ANY pass function and every test, with repeat last/always and no time limit the shared outer loop can only end right after a pass at chunk size <= max(min,1) in which no proposal was accepted. The inner half (a quiet pass at chunk size 1 proposes exactly the neighbour pairs / balanced atoms / atom+partner pairs named in the property) is not a theorem yet: it rests on the proposal-by-proposal correspondence of the Lean pass models with the real code and on the monitor, which checks the fixpoint on the final file against the verdict table under complete verdict trees for n <= 4/5 bracket-bearing atoms.",
+        note=NOTE + "Partial: inner-pass coverage is model+monitor, not proved.",
+        technique="Lean 4 proof (outer loop, induction on fuel) + complete-verdict-tree differential execution with an independent partner computation",
+        ref="§4 C13"),
     "C18": dict(
         text="Theorems C18_classify (for every timed-out flag and every integer return code: TIMEOUT iff timed out, NORMAL iff 0, CRASH iff negative / 77 / >= 2^31, ABNORMAL otherwise, return code hidden iff TIMEOUT, crashes iff CRASH, hangs iff TIMEOUT) and C18_capture (pipe and log-file capture both return exactly the bytes written before exit/kill, for every abstract child and limit). Tied to timed_run.py / crashes.py / hangs.py by real children: every exit code 0..255, every terminating signal, before/past the limit, outputs up to 1 MiB on both streams, both capture modes, pid liveness after return.",
         note=NOTE + "Pipes, kill and wait are the OS; the capture theorem is about an abstract child and tied to reality only by the real-children runs.",
